@@ -9,6 +9,7 @@ import numpy as np
 
 from . import common
 from .symnum import engine as E
+from .symnum.engine import exception_origin
 from .symnum import scalar as sc
 from .symnum import array as ar
 from .symnum.scalar import S
@@ -126,6 +127,12 @@ class OpDef:
 
     def deterministic(self, args):
         return True
+
+    def may_reject(self, args):
+        """configurations the documentation allows in principle but that an implementation may be unable to honour (e.g.
+        'same' padding that needs an asymmetric split): either the documented result or an exception is acceptable, a
+        different shape or value is not"""
+        return False
 
 
 def as_list(o):
@@ -262,6 +269,9 @@ class OpCase:
                 raise
             if illegal:
                 out.fact("rejects-illegal-arguments", True)
+                return out
+            if self.opdef.may_reject(self.args) and exception_origin(e) == "repo":
+                out.rejected = "%s: %s" % (type(e).__name__, e)
                 return out
             raise
         if illegal:
